@@ -404,7 +404,11 @@ func (*Ufs) Create(req *SrvReq) {
 	}
 
 	if file == nil && e == nil {
-		file, e = os.OpenFile(path, omode2uflags(tc.Mode), 0)
+		// A new symbolic link (or a hard link to one) is not opened: the
+		// open would follow it and fail, after the fact, if it dangles.
+		if st, le := os.Lstat(path); le != nil || st.Mode()&os.ModeSymlink == 0 {
+			file, e = os.OpenFile(path, omode2uflags(tc.Mode), 0)
+		}
 	}
 
 	if e != nil {
